@@ -102,7 +102,7 @@ needs_quoting:
 			*dst++ = *src;
 		*dst++ = *src++;
 	}
-	if (*src)
+	if (*src || dst > end)
 		return false;
 	*dst++ = '"';
 	*dst = 0;
